@@ -7,7 +7,7 @@
    observation. *)
 From Coq Require Import List Arith Bool ZArith.
 Import ListNotations.
-From Onet Require Export Base.Corr Overlay.TreeCtl.
+From Onet Require Export Base.Corr Overlay.TreeCtl Overlay.TreeCtlRace.
 
 (* which repairs the code under /repo currently contains *)
 Definition code_fixed_F06 := true.   (* proposed_fixes/C07-F06.diff *)
@@ -15,6 +15,7 @@ Definition code_fixed_F07 := true.   (* proposed_fixes/C07-F07.diff *)
 Definition code_fixed_F08 := true.   (* proposed_fixes/C07-F08.diff *)
 Definition code_fixed_N1 := true.    (* proposed_fixes/C06-N1.diff *)
 Definition code_fixed_N2 := true.    (* proposed_fixes/C06-N2.diff *)
+Definition code_fixed_N4 := false.    (* proposed_fixes/C06-N4.diff: test and store of a response in one critical section *)
 Definition code_fixes : fixes := mkFx code_fixed_F06 code_fixed_F07 code_fixed_F08 code_fixed_N1 code_fixed_N2.
 
 Notation zserver := (server Z).
@@ -57,6 +58,7 @@ Inductive case :=
 | CBinary (d : dec (dec tmarshal * option zroster)) (obs : rres)
 | CProp (t : ztree) (views : list view)
 | CHist (ops : list zop) (snaps : list snap)
+| CRace (acts : list (ract Z)) (snaps : list snap)   (* histories with responses held between test and store *)
 | CSetup (why : nat).      (* the implementation could not even produce the input: see clause 10 *)
 
 (* ---- decidable equalities --------------------------------------------------------- *)
@@ -255,6 +257,34 @@ Fixpoint replay (s : zst) (ops : list zop) (obs : list snap) : bool :=
   | _, _ => false
   end.
 
+(* the same for histories in which a response is held between its test and its store *)
+Definition rvariants (r : rst Z) (a : ract Z) : list (ract Z) :=
+  match a with
+  | RSeq o => map RSeq (variants (r_base r) o)
+  | _ => [a]
+  end.
+
+Definition as_op (a : ract Z) : zop :=
+  match a with
+  | RSeq o => o
+  | RTest _ _ => LDone 0                 (* the test stores nothing: no clause of its own *)
+  | RSet _ => PRequestTree 0 0           (* a peer's action without description: clauses 5, 8, 9 *)
+  end.
+
+Fixpoint rreplay (r : rst Z) (acts : list (ract Z)) (obs : list snap) : bool :=
+  match acts, obs with
+  | [], [] => true
+  | a :: ra, sn :: rs =>
+      existsb (fun a' =>
+        let '(r', outs, oc) := rstep Z.add code_fixes code_fixed_N4 r a' in
+        snap_ok (r_base r) (as_op a') (r_base r') outs oc sn &&
+        match oc with
+        | Fine => rreplay r' ra rs
+        | _ => match ra with [] => true | _ => false end
+        end) (rvariants r a)
+  | _, _ => false
+  end.
+
 Definition agree (c : case) : bool :=
   match c with
   | CRound _ t ro tm direct bytes binary =>
@@ -277,6 +307,7 @@ Definition agree (c : case) : bool :=
       end
   | CProp t views => forallb (view_agrees t) views
   | CHist ops snaps => replay init ops snaps
+  | CRace acts snaps => rreplay rinit acts snaps
   | CSetup _ => false
   end.
 
@@ -508,6 +539,7 @@ Definition check (c : case) : list nat :=
                                     end) views)
       else [10]                     (* propagation senders are always built by NewTree *)
   | CHist ops snaps => check_hist [] None ops snaps
+  | CRace acts snaps => check_hist [] None (map as_op acts) snaps
   | CSetup why => if why =? 6 then [11] else [10]
   end.
 
